@@ -11,11 +11,11 @@ SPEC = {
     "rule": "case = one execution of one block by one variant (replica/zone/re-execution) or one grid point of the epoch-length function; "
             "distinct_nontrivial = distinct blocks (hash) with >=1 tx or a flag that were executed by >= 2 variants, plus distinct large-network grid points",
     "jobs": [
-        Job("chain", "verifsim", "^TestVerifC01Chain$", shards=(8, 16), timeout=(900, 3600)),
-        Job("chain-p1", "verifsim", "^TestVerifC01Chain$", shards=(1, 2), timeout=(900, 3600), gomaxprocs=1, env={"TZ": "Pacific/Pago_Pago"}),
-        Job("chain-p16", "verifsim", "^TestVerifC01Chain$", shards=(1, 2), timeout=(900, 3600), gomaxprocs=16, env={"TZ": "Pacific/Tongatapu"}),
+        Job("chain", "verifsim", "^TestVerifC01Chain$", shards=(8, 16), timeout=(900, 7200)),
+        Job("chain-p1", "verifsim", "^TestVerifC01Chain$", shards=(1, 2), timeout=(900, 7200), gomaxprocs=1, env={"TZ": "Pacific/Pago_Pago"}),
+        Job("chain-p16", "verifsim", "^TestVerifC01Chain$", shards=(1, 2), timeout=(900, 7200), gomaxprocs=16, env={"TZ": "Pacific/Tongatapu"}),
         Job("tzgrid", "verifsim", "^TestVerifC01TimeZone$", shards=(1, 1), timeout=(300, 300)),
-        Job("shards", "verifsim", "^TestVerifC01Shards$", shards=(1, 2), timeout=(900, 3600)),
+        Job("shards", "verifsim", "^TestVerifC01Shards$", shards=(1, 2), timeout=(900, 7200)),
         Job("balance", "blockchain", "^TestVerifC01Balance$", shards=(4, 8), timeout=(600, 1800)),
     ],
     "floors": {"revalidations": (5000, 50000), "epochs_finished": (4, 30), "epochs_finished_large_network": (1, 2), "identity_update_blocks": 50,
